@@ -180,7 +180,10 @@ def btypeOf : OKind → BType
 
 /-- Well-formed origin: the binding is a binding of the hook and is found under its own name
 (`getIncludeSnapshotsFrom` and `SnapshotsFor` look bindings up by name), and a binding that
-includes snapshots belongs to a hook that has kubernetes bindings (enforced by the loader). -/
+includes snapshots belongs to a hook that has kubernetes bindings (enforced by the loader).
+This hypothesis excludes exactly the class of the recorded finding `same-name-bindings` (two bindings
+of one type that share a name, e.g. two unnamed kubernetes bindings: both are called "kubernetes");
+the theorems that need it are named `…_partial`, the excluded point is `same_name_witness`. -/
 def WF (h : Hook) : Origin → Prop
   | .onStartup => True
   | .other b _ => includeOf h (btypeOf b.kind) b.name = b.inc ∧ (b.inc ≠ [] → h.kbs ≠ [])
@@ -261,7 +264,7 @@ theorem updateSnapshots_objects_sync (h : Hook) (cl : Cluster) (c : Ctx) (b : KB
 /-- **C09 refinement (v1).** For every hook, every cluster content and every context the controllers
 produce, the fields `MapV1` assigns after `UpdateSnapshots` are exactly the documented fields with
 the documented values. -/
-theorem mapV1_eq_spec (h : Hook) (cl : Cluster) (o : Origin) (hwf : WF h o) :
+theorem mapV1_eq_spec_partial (h : Hook) (cl : Cluster) (o : Origin) (hwf : WF h o) :
     mapV1 (updateSnapshots h cl (mkCtx o)) = Spec.fieldsV1 h cl o := by
   obtain ⟨h1, h2, h3, h4, h5, h6, h7, h8, h9, _, _⟩ := updateSnapshots_fields h cl (mkCtx o)
   cases o with
@@ -334,9 +337,9 @@ theorem mapV1_eq_spec (h : Hook) (cl : Cluster) (o : Origin) (hwf : WF h o) :
 
 
 /-- **C09 (v1 items).** Every context of the running code path renders as the documented item. -/
-theorem render_v1_eq_expected (h : Hook) (cl : Cluster) (o : Origin) (hwf : WF h o) :
+theorem render_v1_eq_expected_partial (h : Hook) (cl : Cluster) (o : Origin) (hwf : WF h o) :
     render .v1 (updateSnapshots h cl (mkCtx o)) = some (Spec.expected .v1 h cl o) := by
-  simp only [render, Spec.expected, mapV1_eq_spec h cl o hwf]
+  simp only [render, Spec.expected, mapV1_eq_spec_partial h cl o hwf]
 
 /-- **C09 list_is_array_in_order.** The file is a JSON array with one item per context, in the
 order of the contexts (`ConvertBindingContextList` + `Json()`), each item being the rendering of
@@ -366,7 +369,7 @@ theorem list_is_array_in_order (v : Version) (cs : List Ctx) (js : List J) (hr :
 
 /-- **C09 (the whole file, v1).** For every hook, cluster content and list of contexts the file
 written for a hook run is the documented file. -/
-theorem run_file_v1_eq_expected (h : Hook) (cl : Cluster) (os : List Origin) (hwf : ∀ o ∈ os, WF h o) :
+theorem run_file_v1_eq_expected_partial (h : Hook) (cl : Cluster) (os : List Origin) (hwf : ∀ o ∈ os, WF h o) :
     runFile .v1 h cl os = some (Spec.expectedFile .v1 h cl os) := by
   unfold runFile renderList Spec.expectedFile
   suffices hh : renderAll .v1 (os.map (fun o => updateSnapshots h cl (mkCtx o))) =
@@ -374,7 +377,7 @@ theorem run_file_v1_eq_expected (h : Hook) (cl : Cluster) (os : List Origin) (hw
   induction os with
   | nil => rfl
   | cons o rest ih =>
-    have h1 := render_v1_eq_expected h cl o (hwf o (by simp))
+    have h1 := render_v1_eq_expected_partial h cl o (hwf o (by simp))
     have h2 := ih (fun o' ho' => hwf o' (by simp [ho']))
     simp only [List.map_cons, renderAll, h1, h2]
 
@@ -440,15 +443,15 @@ theorem fieldsV1_keys (h : Hook) (cl : Cluster) (o : Origin) :
     cases hi : b.inc <;> by_cases hg : b.group = "" <;> cases hk : b.cfg.keep <;> cases hf : b.cfg.filter <;>
       simp [Spec.fieldsV1, docKeys, Spec.snapshotsField, Spec.groupFields, Spec.viewOf, Spec.ObjView.fields, hi, hg, hk, hf]
 
-/-- **C09 fields_by_type.** The keys of every rendered v1 item are exactly `binding` plus the
+/-- **C09 fields_by_type_partial.** The keys of every rendered v1 item are exactly `binding` plus the
 documented fields of its type (Synchronization: type, objects; Event: type, watchEvent, object iff
 full objects are kept, filterResult iff jqFilter is set; Group: type, groupName; Schedule: type;
 onStartup: nothing else; Validating/Mutating: type, review; Conversion: type, fromVersion, toVersion,
 review) plus `snapshots` exactly when the binding includes snapshots. -/
-theorem fields_by_type (h : Hook) (cl : Cluster) (o : Origin) (hwf : WF h o) (j : J)
+theorem fields_by_type_partial (h : Hook) (cl : Cluster) (o : Origin) (hwf : WF h o) (j : J)
     (hr : render .v1 (updateSnapshots h cl (mkCtx o)) = some j) (k : String) :
     k ∈ j.keys ↔ k ∈ docKeys o := by
-  rw [render_v1_eq_expected h cl o hwf] at hr
+  rw [render_v1_eq_expected_partial h cl o hwf] at hr
   cases hr
   simp only [Spec.expected, mem_keys_mkObj, fieldsV1_keys]
 
@@ -531,9 +534,29 @@ theorem exWF : ∀ o ∈ exOs, WF exHook o := by
   · exact ⟨by decide, rfl⟩
   · exact ⟨by decide, by decide⟩
 example : runFile .v1 exHook exCl exOs = some (Spec.expectedFile .v1 exHook exCl exOs) :=
-  run_file_v1_eq_expected exHook exCl exOs exWF
+  run_file_v1_eq_expected_partial exHook exCl exOs exWF
 example : (runFile .v1 exHook exCl [.kubeSync exK1]).map J.print =
     some "[{\"binding\":\"k1\",\"objects\":[{\"filterResult\":3}],\"snapshots\":{\"k1\":[{\"filterResult\":3}]},\"type\":\"Synchronization\"}]" := by
+  decide
+
+
+/-! ## The excluded point: two bindings with the same name (finding `same-name-bindings`) -/
+
+def dupK1 : KBinding := { name := "kubernetes", ns := "a", cfg := { types := [], filter := none, keep := true } }
+def dupK2 : KBinding := { name := "kubernetes", ns := "b", cfg := { types := [], filter := none, keep := true } }
+def dupHook : Hook := { kbs := [dupK1, dupK2] }
+def dupCl : Cluster := [("a", "o1", .obj [("n", .num 1)]), ("b", "o2", .obj [("n", .num 2)])]
+
+/-- Counterexample (kernel-checked, replayed on the real code by corpus case 6): a hook with two
+unnamed kubernetes bindings watching different namespaces. `UpdateSnapshots` refreshes the `objects`
+of a Synchronization context through `SnapshotsFor(bindingName)`, which finds the *first* binding
+called "kubernetes": the second binding's Synchronization context lists the first binding's objects. -/
+theorem same_name_witness :
+    runFile .v1 dupHook dupCl [.kubeSync dupK2] ≠ some (Spec.expectedFile .v1 dupHook dupCl [.kubeSync dupK2])
+    ∧ (runFile .v1 dupHook dupCl [.kubeSync dupK2]).map J.print =
+        some "[{\"binding\":\"kubernetes\",\"objects\":[{\"object\":{\"n\":1}}],\"type\":\"Synchronization\"}]"
+    ∧ (Spec.expectedFile .v1 dupHook dupCl [.kubeSync dupK2]).print =
+        "[{\"binding\":\"kubernetes\",\"objects\":[{\"object\":{\"n\":2}}],\"type\":\"Synchronization\"}]" := by
   decide
 
 end ShellOp.BindingContext.C09
